@@ -7,7 +7,8 @@ impl cbor_event::se::Serialize for VotingProcedures {
         &self,
         serializer: &'se mut Serializer<W>,
     ) -> cbor_event::Result<&'se mut Serializer<W>> {
-        serializer.write_map(cbor_event::Len::Len(self.0.len() as u64))?;
+        let non_empty_voters = self.0.values().filter(|votes| !votes.is_empty()).count();
+        serializer.write_map(cbor_event::Len::Len(non_empty_voters as u64))?;
         for (voter, votes) in &self.0 {
             if votes.is_empty() {
                 continue;
